@@ -1205,6 +1205,7 @@ def generate(seed, index, tier):
             recipe["coupled"] = True
             if any(o.startswith("hmc") for o in ops) and k2.bernoulli(0.7):
                 recipe["hmc_params"] = k2.choice([["x"], ["z"], ["x", "z"]])
+                recipe["hmc_conditional"] = True  # (only used when HMC owns x alone and no fault wall replaces the target)
                 other = "slidingz" if recipe["hmc_params"] == ["x"] else "sliding"
                 if other not in ops:
                     recipe["operators"] = ops + [other]
